@@ -150,6 +150,23 @@ def PointUpd.apply (u : PointUpd K) (p : Point K) : Point K :=
   let second := if adjBeforeFix then u.fix else u.adj
   second.foldl applySetter (first.foldl applySetter p1)
 
+/-- the same for a point inside `<coordinates>` (`process_point(atts, observed = true)`, 6848bc2a): the values are
+    observations — `set_xy` / `set_z` are skipped when the point already has that coordinate group
+    (`if (!(observed && SB[pp_id].test_xy())) …`); the status setters apply as for any `<point>`.  The guards and the
+    argument are regenerated (`observedKeepsXY`, `observedKeepsZ`, `coordsPointObserved`): on a tree without them this is
+    `PointUpd.apply` -/
+def PointUpd.applyObs (u : PointUpd K) (p : Point K) : Point K :=
+  let p1 : Point K :=
+    { p with xy := match u.xy with
+                   | some v => if coordsPointObserved && observedKeepsXY && p.xy.isSome then p.xy else some v
+                   | none => p.xy,
+             z := match u.z with
+                  | some v => if coordsPointObserved && observedKeepsZ && p.z.isSome then p.z else some v
+                  | none => p.z }
+  let first := if adjBeforeFix then u.adj else u.fix
+  let second := if adjBeforeFix then u.fix else u.adj
+  second.foldl applySetter (first.foldl applySetter p1)
+
 /-- `SB[id]` creates an unused point without coordinates when the id is new -/
 def upsert (ps : List (Point K)) (id : String) (f : Point K → Point K) : List (Point K) :=
   if ps.any (fun p => p.id == id) then ps.map (fun p => if p.id == id then f p else p)
@@ -422,8 +439,8 @@ def parseVec (C : Codec K) (as : Attrs) : Except Err (Vec K) := do
     pure ⟨from_, to, dx, dy, dz, fromDh, toDh, (reach .vec .setExtern as).getD ""⟩
   | _, _, _ => throw .badVector
 
-/-- the points of a `<coordinates>` cluster: each goes through `process_point` (PointData is updated) and then
-    yields the observations X, Y and / or Z -/
+/-- the points of a `<coordinates>` cluster: each goes through `process_point(atts, true)` (PointData gets the point,
+    its status, and the coordinates it does not have yet: `PointUpd.applyObs`) and then yields the observations X, Y and / or Z -/
 def parseCoordPts (C : Codec K) : List (Point K) → String → List (List (PAttr × String)) →
     Except Err (List (Point K) × String × List (CPoint K))
   | ps, pp, [] => .ok (ps, pp, [])
@@ -432,7 +449,7 @@ def parseCoordPts (C : Codec K) : List (Point K) → String → List (List (PAtt
     | .error e => .error e
     | .ok u =>
       if u.xy.isNone && u.z.isNone then .error .emptyCoordsPoint
-      else match parseCoordPts C (upsert ps u.id u.apply) u.id rest with
+      else match parseCoordPts C (upsert ps u.id u.applyObs) u.id rest with
         | .error e => .error e
         | .ok (ps', pp', cps) => .ok (ps', pp', ⟨u.id, u.xy, u.z⟩ :: cps)
 
